@@ -254,3 +254,149 @@ func isAppender(f *ssa.Function, sum *effects.Summary, k string) bool {
 	}
 	return false
 }
+
+// pooledOrder: within one function, an object that has been handed back to a sync.Pool - by a direct, non-deferred Put,
+// or by a non-deferred call of a release closure that one call returned together with the object - must not be used on
+// any path after that: the next taker of the pool owns it (use after Put inside the call, C16-r10-2).
+func pooledOrder(p *load.Prog, r *report.Report, prop string) {
+	isPut := func(c *ssa.CallCommon) bool {
+		f := c.StaticCallee()
+		return f != nil && f.Pkg != nil && f.Pkg.Pkg.Path() == "sync" && f.Name() == "Put" && f.Signature.Recv() != nil &&
+			strings.HasSuffix(f.Signature.Recv().Type().String(), "sync.Pool")
+	}
+	strip := func(v ssa.Value) ssa.Value {
+		for {
+			switch x := v.(type) {
+			case *ssa.MakeInterface:
+				v = x.X
+			case *ssa.ChangeInterface:
+				v = x.X
+			case *ssa.ChangeType:
+				v = x.X
+			case *ssa.TypeAssert:
+				v = x.X
+			default:
+				return v
+			}
+		}
+	}
+	putters := map[*ssa.Function]bool{}
+	for _, f := range p.ModFuncs() {
+		for _, b := range f.Blocks {
+			for _, in := range b.Instrs {
+				if c, ok := in.(*ssa.Call); ok && isPut(&c.Call) {
+					putters[f] = true
+				}
+			}
+		}
+	}
+	// functions that return a putting closure: result indices of function type
+	releasers := map[*ssa.Function]map[int]bool{}
+	for _, f := range p.ModFuncs() {
+		makes := false
+		for _, b := range f.Blocks {
+			for _, in := range b.Instrs {
+				if mc, ok := in.(*ssa.MakeClosure); ok {
+					if g, ok := mc.Fn.(*ssa.Function); ok && putters[g] {
+						makes = true
+					}
+				}
+			}
+		}
+		if !makes {
+			continue
+		}
+		res := f.Signature.Results()
+		for i := 0; i < res.Len(); i++ {
+			if _, ok := res.At(i).Type().Underlying().(*types.Signature); ok {
+				if releasers[f] == nil {
+					releasers[f] = map[int]bool{}
+				}
+				releasers[f][i] = true
+			}
+		}
+	}
+	nsites, nfail := 0, 0
+	for _, f := range p.ModFuncs() {
+		for _, b := range f.Blocks {
+			for ci, in := range b.Instrs {
+				c, ok := in.(*ssa.Call)
+				if !ok {
+					continue
+				}
+				var roots []ssa.Value
+				if isPut(&c.Call) && len(c.Call.Args) >= 2 {
+					roots = append(roots, strip(c.Call.Args[1]))
+				} else if e, ok := c.Call.Value.(*ssa.Extract); ok {
+					if tc, ok := e.Tuple.(*ssa.Call); ok {
+						if g := tc.Call.StaticCallee(); g != nil && releasers[g][e.Index] {
+							for _, ref := range *tc.Referrers() {
+								if s, ok := ref.(*ssa.Extract); ok && !releasers[g][s.Index] {
+									roots = append(roots, s)
+								}
+							}
+						}
+					}
+				}
+				if len(roots) == 0 {
+					continue
+				}
+				nsites++
+				for _, root := range roots {
+					if _, isConst := root.(*ssa.Const); isConst {
+						continue
+					}
+					var defBlock *ssa.BasicBlock
+					if ri, ok := root.(ssa.Instruction); ok {
+						defBlock = ri.Block()
+					}
+					reach := map[*ssa.BasicBlock]bool{}
+					var walk func(x *ssa.BasicBlock)
+					walk = func(x *ssa.BasicBlock) {
+						if reach[x] || (x == defBlock && x != b) {
+							return
+						}
+						reach[x] = true
+						for _, s := range x.Succs {
+							walk(s)
+						}
+					}
+					for _, s := range b.Succs {
+						if s != b {
+							walk(s)
+						}
+					}
+					report := func(u ssa.Instruction) {
+						nfail++
+						r.Fail(prop+".poolorder", fmt.Sprintf("%s uses a pooled object after giving it back", f.Name()), p.Pos(u.Pos()),
+							"the object was handed back to a sync.Pool at "+p.Pos(c.Pos())+" and is used afterwards on a path of the same function: a concurrent call that takes it from the pool shares it (use after Put)")
+					}
+					for _, ub := range f.Blocks {
+						for ui, u := range ub.Instrs {
+							if u == in {
+								continue
+							}
+							switch u.(type) {
+							case *ssa.DebugRef, *ssa.MakeInterface, *ssa.ChangeInterface, *ssa.ChangeType, *ssa.TypeAssert, *ssa.Extract:
+								continue
+							}
+							after := (ub == b && ui > ci) || (ub != b && reach[ub])
+							if !after {
+								continue
+							}
+							for _, op := range u.Operands(nil) {
+								if op != nil && *op != nil && strip(*op) == root {
+									report(u)
+									break
+								}
+							}
+						}
+					}
+				}
+			}
+		}
+	}
+	if nsites > 0 && nfail == 0 {
+		r.OK(prop+".poolorder", "pooled objects", fmt.Sprintf("%d hand-back site(s): no use of the object after it", nsites))
+	}
+}
